@@ -281,11 +281,16 @@ def project_rq(rq_pdu):
 def send_after_negotiation(assoc, sizes, rng, ctx=1):
     """Send messages with data sets of the given sizes; returns (pdu lengths as limbs, delivered?)."""
     lens, delivered = [], True
-    for ln in sizes:
+    seen = {}
+    for ln in list(sizes) + [s for s in sizes if s]:       # every non-empty size twice: once as bytes, once as file
         msg = D.fill(dm.CStoreRQMessage(), rng, uid_len=20)
         data = bytes((i * 31 + ln) % 251 for i in range(ln)) if ln else None
         if data:
-            msg.data_set = data
+            # alternately as bytes and as a seekable file (the two fragmenters of dimsemessages.py)
+            import io
+            as_file = seen.get(ln, False)
+            seen[ln] = True
+            msg.data_set = io.BytesIO(data) if as_file else data
         n0 = len(assoc.dul.sent)
         try:
             assoc.send(msg, ctx)
